@@ -1,6 +1,8 @@
 """C02 — accept/reject decision, stored normal form and error class match the docs."""
 import json
+import random
 from ..suites import construct as S
+from ..suites import extras as X
 from .. import dump
 
 ID = "C02"
@@ -25,21 +27,43 @@ ASSUMPTIONS = [
 
 
 def cases(rng, tier):
-    return S.gen_cases(rng, tier, 90 if tier == "quick" else 1200)
+    return S.gen_cases(rng, tier, 90 if tier == "quick" else 1200) + S.default_cases(random.Random(str(rng.getstate()[1][0])), tier, 150 if tier == "quick" else 2500) + S.crosstype_cases() \
+        + X.directed_ctor_cases()
 
 
 def search_cases(rng, tier):
     return S.gen_cases(rng, "thorough", 400)
 
 
-run_impl = S.run_impl
-line = S.line
-tags = S.tags
-nontrivial = S.nontrivial
-describe = S.describe
+def _x(case):
+    return case.get("suite") == "extras-ctor"
+
+
+def run_impl(case):
+    return X.run_ctor(case) if _x(case) else S.run_impl(case)
+
+
+def line(case, impl):
+    return None if _x(case) else S.line(case, impl)
+
+
+def tags(case, impl, model):
+    if _x(case):
+        return ["stream:extras-ctor", "extras:" + impl.get("out", "skipped")] + (["extras-exc:" + impl["exc"]] if "exc" in impl else [])
+    return S.tags(case, impl, model)
+
+
+def nontrivial(case):
+    return True if _x(case) else S.nontrivial(case)
+
+
+def describe(case, impl, model):
+    return {"extras": [case["leaf"], case["wrap"]], "value": impl.get("value"), "out": impl.get("out"), "exc": impl.get("exc")} if _x(case) else S.describe(case, impl, model)
 
 
 def judge(case, impl, model):
+    if _x(case):
+        return None, X.judge_ctor(case, impl)
     msg = S.correspondence(case, impl, model)
     fails = []
     if "unbuildable" in impl or "abstraction_mismatch" in impl:
